@@ -114,6 +114,11 @@ func main() {
 		{Length: 5, AllowChars: "aé€", RequireSets: []string{"é", "€b"}, Exclude: spg.Ambiguous},
 		{Length: 10, Allow: spg.All, Require: spg.Uppers | spg.Lowers | spg.Digits, ExcludeChars: "abc"},
 	}
+	// the RequireSets of two shared recipes are prefixes of longer caller-owned tables (spare capacity behind them)
+	table1 := []string{"357", "xyz", "caller-owned-1", "caller-owned-2"}
+	table2 := []string{"é", "€b", "caller-owned-3"}
+	recipes[2].RequireSets = table1[:2]
+	recipes[3].RequireSets = table2[:2]
 	reqOf := [][]string{nil, {"0123456789", "!@.-_*"}, {"357", "xyz", "0123456789"}, {"é", "€b"}, {"ABCDEFGHIJKLMNOPQRSTUVWXYZ", "defghijklmnopqrstuvwxyz", "0123456789"}}
 	var chars []*charCase
 	for i, r := range recipes {
@@ -297,6 +302,9 @@ func main() {
 	}
 	close(start)
 	wg.Wait()
+	if table1[2] != "caller-owned-1" || table1[3] != "caller-owned-2" || table2[2] != "caller-owned-3" {
+		bad("a call wrote into the caller's table beyond the length of RequireSets: %q %q", table1, table2)
+	}
 	nc := 0
 	combos.Range(func(k, v interface{}) bool { nc++; return true })
 	fmt.Printf("RESULT calls=%d combos=%d invalid=%d first=%s\n", calls, nc, invalid, strconv.Quote(first))
